@@ -10,6 +10,8 @@ SAFETY = ("oob-read", "oob-write", "shift-ub", "div0")
 def plan(tier, seed):
     js, n = L.jobs([L.bitpacked, L.rle, L.bitpacked1, L.scalars, L.hybrid, L.delta, L.encoders], tier,
                    prefix="C12")
+    from . import bytearray as BA
+    js += BA.jobs("C12", tier, which=("h_unpack", "h_pack"))
     try:
         from . import C10
         js += C10.capacity_jobs(tier, seed, prop="C12")
@@ -24,7 +26,8 @@ def plan(tier, seed):
                "capacities 0..count+1, item sizes 1 and 4), inputs sized exactly to the bytes the stream needs" % (tier, n),
         outside="Cython memoryview/refcount runtime, NumpyIO.__cinit__, numpy; forming (not dereferencing) an "
                 "out-of-bounds pointer; signed wrap-around (defined under -fno-strict-overflow); malformed streams; "
-                "speedups.pack/unpack_byte_array (CPython object API calls dominate; not encoded)",
+                "the CPython object API inside speedups (the pointer arithmetic of pack/unpack_byte_array is "
+                "checked on the lifted .pyx, engine E3)",
         stubs=L.STUBS, assumptions=L.ASSUME)
     return js, extra
 
